@@ -155,3 +155,244 @@ Proof.
   destruct (r0 <? r1); [reflexivity|]. destruct (r1 =? 0); [reflexivity|].
   apply fu_loop_eq; try assumption; unfold word; rewrite B_val; lia.
 Qed.
+
+(* ---------------- from_u64_prefix: `while a3 >= LIMIT { .. break .. }`, from_u128_prefix ---------------- *)
+Import GcdMatrix.
+
+Lemma half1_eq {T} r s k l (K : Z -> Z -> outcome T) :
+  word r -> 0 <= s -> word k -> 0 <= l ->
+  (do t1 <- chkdiv s ; let q := r / t1 in
+   do t2 <- chk64 (q * s) ; do t3 <- chk64 (r - t2) ;
+   do t4 <- chk64 (q * l) ; do t5 <- chk64 (k + t4) ; K t3 t5)
+  = (do p <- euclid_half r s k l ; let '(r', k') := p in K r' k').
+Proof.
+  intros Hr Hs Hk Hl. unfold euclid_half, chkdiv, cdiv, word in *.
+  destruct (Z.eqb_spec s 0) as [->|Ns]; [reflexivity|]. cbn [obind]. cbv zeta.
+  assert (Hq : 0 <= r / s) by (apply Z.div_pos; lia).
+  rewrite (chk64_cmul (r / s) s Hq Hs). unfold cmul at 1 2.
+  destruct (r / s * s <? B); [|reflexivity]. cbn [obind].
+  rewrite (chk64_csub r (r / s * s)) by (unfold word; nia).
+  destruct (csub r (r / s * s)) as [r'| | | |]; try reflexivity. cbn [obind].
+  rewrite (chk64_cmul (r / s) l Hq Hl). unfold cmul.
+  destruct (r / s * l <? B); [|reflexivity]. cbn [obind].
+  rewrite (chk64_cadd k (r / s * l)) by nia.
+  destruct (cadd k (r / s * l)) as [k'| | | |]; reflexivity.
+Qed.
+
+Lemma half1_range r s k l r' k' :
+  word r -> 0 <= s -> word k -> 0 <= l ->
+  euclid_half r s k l = Val (r', k') -> word r' /\ word k'.
+Proof.
+  intros Hr Hs Hk Hl. unfold euclid_half, cdiv, cmul, csub, cadd, word in *.
+  destruct (Z.eqb_spec s 0) as [->|Ns]; [discriminate|]. cbn [obind].
+  assert (Hq : 0 <= r / s) by (apply Z.div_pos; lia).
+  destruct (r / s * s <? B); [|discriminate]. cbn [obind].
+  destruct (Z.ltb_spec r (r / s * s)); [discriminate|]. cbn [obind].
+  destruct (r / s * l <? B); [|discriminate]. cbn [obind].
+  destruct (Z.ltb_spec (k + r / s * l) B); [|discriminate]. cbn [obind].
+  intros [= <- <-]. nia.
+Qed.
+
+Definition ps_tuple (p : pstate * bool) : Z * Z * Z * Z * Z * Z * Z * bool :=
+  let '(s, e) := p in (pa1 s, pa2 s, pa3 s, pk0 s, pk1 s, pk2 s, pk3 s, e).
+Definition wordS (s : pstate) : Prop :=
+  word (pa1 s) /\ word (pa2 s) /\ word (pa3 s) /\ word (pk0 s) /\ word (pk1 s) /\ word (pk2 s) /\ word (pk3 s).
+
+Lemma prefix_half_words s s1 : wordS s -> prefix_half s = Val s1 -> wordS s1.
+Proof.
+  intros (W1 & W2 & W3 & K0 & K1 & K2 & K3). unfold prefix_half.
+  destruct (negb (pa3 s <? pa2 s)); [discriminate|]. destruct (negb (0 <? pa3 s)); [discriminate|].
+  destruct (euclid_half (pa2 s) (pa3 s) (pk2 s) (pk3 s)) as [[a3 k3]| | | |] eqn:E; try discriminate.
+  cbn [obind]. intros [= <-].
+  destruct (half1_range _ _ _ _ _ _ W2 (proj1 W3) K2 (proj1 K3) E) as [Wa Wk].
+  unfold wordS; cbn. auto 10.
+Qed.
+
+(* the loop, for any condition and body that behave as the two halves of the model's round *)
+Lemma wfb_prefix cond body :
+  (forall s e, cond (ps_tuple (s, e)) = Val (LIMIT <=? pa3 s)) ->
+  (forall s e, wordS s -> body (ps_tuple (s, e)) =
+     do s1 <- prefix_half s ;
+     if pa3 s1 <? LIMIT then Val (Ret (ps_tuple (s1, false)))
+     else do s2 <- prefix_half s1 ; Val (Cont (ps_tuple (s2, e)))) ->
+  forall fuel s e, wordS s ->
+  while_fuel_brk fuel (ps_tuple (s, e)) cond body = omap ps_tuple (prefix_loop fuel s e).
+Proof.
+  intros Hc Hb. induction fuel as [|fuel IH]; intros s e Ws.
+  - cbn [while_fuel_brk prefix_loop]. rewrite Hc. cbn [obind]. destruct (LIMIT <=? pa3 s); reflexivity.
+  - cbn [while_fuel_brk prefix_loop]. rewrite Hc. cbn [obind].
+    destruct (LIMIT <=? pa3 s); [|reflexivity].
+    rewrite (Hb s e Ws).
+    destruct (prefix_half s) as [s1| | | |] eqn:E1; try reflexivity. cbn [obind].
+    pose proof (prefix_half_words s s1 Ws E1) as Ws1.
+    destruct (pa3 s1 <? LIMIT); [reflexivity|].
+    destruct (prefix_half s1) as [s2| | | |] eqn:E2; try reflexivity. cbn [obind].
+    apply IH. exact (prefix_half_words s1 s2 Ws1 E2).
+Qed.
+
+(* one half of the generated round (after the seven moves) is prefix_half *)
+Lemma gen_half_eq {T} a1 a2 a3 k0 k1 k2 k3 (K : Z -> Z -> outcome T) :
+  word a2 -> word a3 -> word k2 -> word k3 ->
+  (if negb (a3 <? a2) then DebugPanic else
+   if negb (0 <? a3) then DebugPanic else
+   do t1 <- chkdiv a3 ; let q := a2 / t1 in
+   do t2 <- chk64 (q * a3) ; do t3 <- chk64 (a2 - t2) ;
+   do t4 <- chk64 (q * k3) ; do t5 <- chk64 (k2 + t4) ; K t3 t5)
+  = (do s1 <- prefix_half (PS a1 a2 a3 k0 k1 k2 k3) ; K (pa3 s1) (pk3 s1)).
+Proof.
+  intros W2 W3 K2 K3. unfold prefix_half. cbn [pa1 pa2 pa3 pk0 pk1 pk2 pk3].
+  destruct (negb (a3 <? a2)); [reflexivity|]. destruct (negb (0 <? a3)); [reflexivity|].
+  rewrite (half1_eq a2 a3 k2 k3) by (assumption || apply W3 || apply K3).
+  destruct (euclid_half a2 a3 k2 k3) as [[r k]| | | |]; reflexivity.
+Qed.
+
+Lemma prefix_half_fields a1 a2 a3 k0 k1 k2 k3 s1 :
+  prefix_half (PS a1 a2 a3 k0 k1 k2 k3) = Val s1 ->
+  pa1 s1 = a2 /\ pa2 s1 = a3 /\ pk0 s1 = k1 /\ pk1 s1 = k2 /\ pk2 s1 = k3.
+Proof.
+  unfold prefix_half. cbn [pa1 pa2 pa3 pk0 pk1 pk2 pk3].
+  destruct (negb (a3 <? a2)); [discriminate|]. destruct (negb (0 <? a3)); [discriminate|].
+  destruct (euclid_half a2 a3 k2 k3) as [[r k]| | | |]; try discriminate. cbn [obind].
+  intros [= <-]. cbn. auto.
+Qed.
+
+Lemma khi_nonneg k : 0 <= k -> 0 <= khi k.
+Proof. intros H. unfold khi. apply Z.div_pos; lia. Qed.
+Lemma klo_nonneg k : 0 <= klo k.
+Proof. unfold klo, LIMIT. apply Z.mod_pos_bound. lia. Qed.
+Lemma khi_word k : word k -> word (khi k).
+Proof. intros [H1 H2]. unfold khi, word. split; [apply Z.div_pos; lia|]. apply Z.div_lt_upper_bound; lia. Qed.
+
+(* the selection after the loop *)
+Lemma gen_select_eq s even : wordS s ->
+  (let '(a1, a2, a3, k0, k1, k2, k3, even) := ps_tuple (s, even) in
+   let u0 := (shr64 k0 32) in
+   let u1 := (shr64 k1 32) in
+   let u2 := (shr64 k2 32) in
+   let u3 := (shr64 k3 32) in
+  do t_26 <- chkdiv 4294967296 ; let v0 := (k0 mod t_26) in
+  do t_27 <- chkdiv 4294967296 ; let v1 := (k1 mod t_27) in
+  do t_28 <- chkdiv 4294967296 ; let v2 := (k2 mod t_28) in
+  do t_29 <- chkdiv 4294967296 ; let v3 := (k3 mod t_29) in
+   if negb ((4294967296 <=? a2)) then DebugPanic else
+   if negb ((a3 <? 4294967296)) then DebugPanic else
+  do t_44 <- (if even then ( if negb ((v2 <=? a2)) then DebugPanic else
+  do t_30 <- chk64 (a1 - a2) ; do t_31 <- chk64 (u2 + u1) ; do t_36 <- (if (t_31 <=? t_30) then (do t_34 <- (if (u3 <=? a3) then (do t_32 <- chk64 (a2 - a3) ; do t_33 <- chk64 (v3 + v2) ; Val (t_33 <=? t_32)) else Val false) ; do t_35 <- (if t_34 then (Val (u2, v2, u3, v3, true)) else (Val (u1, v1, u2, v2, false))) ; Val t_35) else (Val (u0, v0, u1, v1, true))) ; Val t_36) else ( if negb ((u2 <=? a2)) then DebugPanic else
+  do t_37 <- chk64 (a1 - a2) ; do t_38 <- chk64 (v2 + v1) ; do t_43 <- (if (t_38 <=? t_37) then (do t_41 <- (if (v3 <=? a3) then (do t_39 <- chk64 (a2 - a3) ; do t_40 <- chk64 (u3 + u2) ; Val (t_40 <=? t_39)) else Val false) ; do t_42 <- (if t_41 then (Val (u2, v2, u3, v3, false)) else (Val (u1, v1, u2, v2, true))) ; Val t_42) else (Val (u0, v0, u1, v1, false))) ; Val t_43)) ; Val t_44)
+  = omap mat_tuple (prefix_select s even).
+Proof.
+  intros (W1 & W2 & W3 & K0 & K1 & K2 & K3).
+  destruct s as [a1 a2 a3 k0 k1 k2 k3]. cbn [pa1 pa2 pa3 pk0 pk1 pk2 pk3] in *.
+  unfold prefix_select, ps_tuple. cbn [pa1 pa2 pa3 pk0 pk1 pk2 pk3]. cbv zeta.
+  change (chkdiv 4294967296) with (Val 4294967296 : outcome Z). cbn [obind].
+  change (shr64 ?k 32) with (khi k). change (?k mod 4294967296) with (klo k).
+  change LIMIT with 4294967296.
+  rewrite (Z.ltb_antisym 4294967296 a2). destruct (negb (4294967296 <=? a2)); [reflexivity|].
+  destruct (negb (a3 <? 4294967296)); [reflexivity|].
+  pose proof (khi_nonneg k0 (proj1 K0)). pose proof (khi_nonneg k1 (proj1 K1)).
+  pose proof (khi_nonneg k2 (proj1 K2)). pose proof (khi_nonneg k3 (proj1 K3)).
+  pose proof (klo_nonneg k0). pose proof (klo_nonneg k1). pose proof (klo_nonneg k2). pose proof (klo_nonneg k3).
+  destruct even.
+  - rewrite (Z.ltb_antisym (klo k2) a2). destruct (negb (klo k2 <=? a2)); [reflexivity|].
+    rewrite (chk64_csub a1 a2 W1 (proj1 W2)).
+    destruct (csub a1 a2) as [d12| | | |]; try reflexivity. cbn [obind].
+    rewrite (chk64_cadd (khi k2) (khi k1)) by assumption.
+    destruct (cadd (khi k2) (khi k1)) as [sx| | | |]; try reflexivity. cbn [obind].
+    destruct (sx <=? d12); [|reflexivity].
+    destruct (khi k3 <=? a3); cbn [obind]; [|reflexivity].
+    rewrite (chk64_csub a2 a3 W2 (proj1 W3)).
+    destruct (csub a2 a3) as [d23| | | |]; try reflexivity. cbn [obind].
+    rewrite (chk64_cadd (klo k3) (klo k2)) by assumption.
+    destruct (cadd (klo k3) (klo k2)) as [sy| | | |]; try reflexivity. cbn [obind].
+    destruct (sy <=? d23); reflexivity.
+  - rewrite (Z.ltb_antisym (khi k2) a2). destruct (negb (khi k2 <=? a2)); [reflexivity|].
+    rewrite (chk64_csub a1 a2 W1 (proj1 W2)).
+    destruct (csub a1 a2) as [d12| | | |]; try reflexivity. cbn [obind].
+    rewrite (chk64_cadd (klo k2) (klo k1)) by assumption.
+    destruct (cadd (klo k2) (klo k1)) as [sx| | | |]; try reflexivity. cbn [obind].
+    destruct (sx <=? d12); [|reflexivity].
+    destruct (klo k3 <=? a3); cbn [obind]; [|reflexivity].
+    rewrite (chk64_csub a2 a3 W2 (proj1 W3)).
+    destruct (csub a2 a3) as [d23| | | |]; try reflexivity. cbn [obind].
+    rewrite (chk64_cadd (khi k3) (khi k2)) by assumption.
+    destruct (cadd (khi k3) (khi k2)) as [sy| | | |]; try reflexivity. cbn [obind].
+    destruct (sy <=? d23); reflexivity.
+Qed.
+
+Lemma prefix_loop_words : forall fuel s e s' e',
+  wordS s -> prefix_loop fuel s e = Val (s', e') -> wordS s'.
+Proof.
+  induction fuel as [|fuel IH]; intros s e s' e' Ws; cbn [prefix_loop].
+  - destruct (LIMIT <=? pa3 s); [discriminate|]. intros [= <- <-]. exact Ws.
+  - destruct (LIMIT <=? pa3 s); [|intros [= <- <-]; exact Ws].
+    destruct (prefix_half s) as [s1| | | |] eqn:E1; try discriminate. cbn [obind].
+    pose proof (prefix_half_words s s1 Ws E1) as Ws1.
+    destruct (pa3 s1 <? LIMIT); [intros [= <- <-]; exact Ws1|].
+    destruct (prefix_half s1) as [s2| | | |] eqn:E2; try discriminate. cbn [obind].
+    apply IH. exact (prefix_half_words s1 s2 Ws1 E2).
+Qed.
+
+Theorem g_mat_from_u64_prefix_eq a0 a1 : word a0 -> word a1 ->
+  g_mat_from_u64_prefix a0 a1 = omap mat_tuple (from_u64_prefix a0 a1).
+Proof.
+  intros W0 W1. unfold g_mat_from_u64_prefix, from_u64_prefix.
+  change (2 ^ 63) with 9223372036854775808. change LIMIT with 4294967296. change (2 ^ 32) with 4294967296.
+  rewrite (Z.ltb_antisym 9223372036854775808 a0). destruct (negb (9223372036854775808 <=? a0)); [reflexivity|].
+  rewrite (Z.ltb_antisym a1 a0). destruct (negb (a1 <=? a0)); [reflexivity|].
+  destruct (a1 <? 4294967296); [reflexivity|].
+  assert (Wk0 : word 4294967296) by (unfold word; rewrite B_val; lia).
+  assert (Wk1 : word 1) by (unfold word; rewrite B_val; lia).
+  rewrite (half1_eq a0 a1 4294967296 1 _ W0 (proj1 W1) Wk0 (proj1 Wk1)).
+  destruct (euclid_half a0 a1 4294967296 1) as [[a2 k2]| | | |] eqn:E1; try reflexivity. cbn [obind]. cbv beta iota.
+  destruct (half1_range _ _ _ _ _ _ W0 (proj1 W1) Wk0 (proj1 Wk1) E1) as [W2 K2].
+  destruct (a2 <? 4294967296).
+  - cbv zeta. change (chkdiv 4294967296) with (Val 4294967296 : outcome Z). cbn [obind].
+    change (shr64 k2 32) with (khi k2). change (k2 mod 4294967296) with (klo k2).
+    destruct (klo k2 <=? a2); cbn [obind]; [|reflexivity].
+    rewrite (chk64_csub a1 a2 W1 (proj1 W2)).
+    destruct (csub a1 a2) as [d| | | |]; try reflexivity. cbn [obind].
+    destruct (khi k2 <=? d); reflexivity.
+  - rewrite (half1_eq a1 a2 1 k2 _ W1 (proj1 W2) Wk1 (proj1 K2)).
+    destruct (euclid_half a1 a2 1 k2) as [[a3 k3]| | | |] eqn:E2; try reflexivity. cbn [obind]. cbv beta iota.
+    destruct (half1_range _ _ _ _ _ _ W1 (proj1 W2) Wk1 (proj1 K2) E2) as [W3 K3].
+    change (a1, a2, a3, 4294967296, 1, k2, k3, true) with (ps_tuple (PS a1 a2 a3 4294967296 1 k2 k3, true)).
+    assert (WS : wordS (PS a1 a2 a3 4294967296 1 k2 k3)) by (unfold wordS; cbn; auto 10).
+    rewrite (wfb_prefix _ _) with (fuel := 64%nat); [| | | exact WS].
+    + destruct (prefix_loop 64 (PS a1 a2 a3 4294967296 1 k2 k3) true) as [[s e]| | | |] eqn:EL; try reflexivity.
+      cbn [omap obind fst snd].
+      apply gen_select_eq. exact (prefix_loop_words _ _ _ _ _ WS EL).
+    + intros [b1 b2 b3 c0 c1 c2 c3] e. reflexivity.
+    + intros [b1 b2 b3 c0 c1 c2 c3] e (V1 & V2 & V3 & C0 & C1 & C2 & C3). cbn [pa1 pa2 pa3 pk0 pk1 pk2 pk3] in *.
+      unfold ps_tuple. cbn [pa1 pa2 pa3 pk0 pk1 pk2 pk3]. cbv zeta.
+      rewrite (gen_half_eq b1 b2 b3 c0 c1 c2 c3) by assumption.
+      destruct (prefix_half (PS b1 b2 b3 c0 c1 c2 c3)) as [s1| | | |] eqn:H1; try reflexivity. cbn [obind].
+      destruct (prefix_half_fields _ _ _ _ _ _ _ _ H1) as (F1 & F2 & F3 & F4 & F5).
+      assert (Ws0 : wordS (PS b1 b2 b3 c0 c1 c2 c3)) by (unfold wordS; cbn; auto 10).
+      pose proof (prefix_half_words _ _ Ws0 H1) as Ws1.
+      destruct s1 as [d1 d2 d3 e0 e1 e2 e3]. cbn [pa1 pa2 pa3 pk0 pk1 pk2 pk3] in *. subst d1 d2 e0 e1 e2.
+      change LIMIT with 4294967296.
+      destruct (d3 <? 4294967296); [reflexivity|].
+      destruct Ws1 as (X1 & X2 & X3 & Y0 & Y1 & Y2 & Y3). cbn [pa1 pa2 pa3 pk0 pk1 pk2 pk3] in *.
+      rewrite (gen_half_eq b2 b3 d3 c1 c2 c3 e3) by assumption.
+      destruct (prefix_half (PS b2 b3 d3 c1 c2 c3 e3)) as [s2| | | |] eqn:H2; try reflexivity. cbn [obind].
+      destruct (prefix_half_fields _ _ _ _ _ _ _ _ H2) as (G1 & G2 & G3 & G4 & G5).
+      destruct s2 as [f1 f2 f3 g0 g1 g2 g3]. cbn [pa1 pa2 pa3 pk0 pk1 pk2 pk3] in *. subst. reflexivity.
+Qed.
+
+Theorem g_mat_from_u128_prefix_eq r0 r1 : 0 <= r0 < BB -> 0 <= r1 ->
+  g_mat_from_u128_prefix r0 r1 = omap mat_tuple (from_u128_prefix r0 r1).
+Proof.
+  intros H0 H1. unfold g_mat_from_u128_prefix, from_u128_prefix.
+  rewrite (Z.ltb_antisym r1 r0). destruct (negb (r1 <=? r0)); [reflexivity|]. cbv zeta.
+  change (Prim.clz128 r0) with (clz128 r0).
+  assert (Hs : 0 <= clz128 r0).
+  { unfold clz128. destruct (Z.eqb_spec r0 0); [lia|].
+    assert (Z.log2 r0 < 128) by (apply Z.log2_lt_pow2; [lia|]; change (2 ^ 128) with BB; lia). lia. }
+  unfold chksh. replace (0 <=? clz128 r0) with true by (symmetry; apply Z.leb_le; exact Hs). cbn [andb].
+  destruct (Z.ltb_spec (clz128 r0) 128), (Z.leb_spec 128 (clz128 r0)); try lia; cbn [obind]; [|reflexivity].
+  unfold shl128, shr128, wrap128, wrap. change (2 ^ 64) with B.
+  pose proof B_pos as HB.
+  rewrite g_mat_from_u64_prefix_eq by (unfold word; apply Z.mod_pos_bound; lia).
+  destruct (from_u64_prefix _ _) as [q| | | |]; try reflexivity. cbn [obind omap].
+  destruct (Prim.mat_eqb (mat_tuple q) (1, 0, 0, 1, true)); reflexivity.
+Qed.
